@@ -2,7 +2,7 @@
     Theorems only: statement, [exact], [Print Assumptions] (statements restated verbatim from the
     Inv_*.v files where they are proved).  See DESIGN.md section 5 for how each renders the property. *)
 From CB Require Import ProofLib Spec MonitorSound Results.
-From CB Require Import Inv_relay_pull.
+From CB Require Import Inv_relay_pull Inv_take_pull Inv_from_iter_pull Inv_concat_pull.
 
 (** pull regime: the monitor's VOverPull / VOverData / VUnanswered checks never fire *)
 Theorem C14_map_safe_pull (f : val -> val) p :
@@ -32,3 +32,68 @@ Theorem C14_skip_safe_pull (max : nat) p :
   forall c : cfg (skip_op max), reach p g_std c -> viols (ms c) = [] /\ dead c = false.
 Proof. exact (@skip_safe_pull max p). Qed.
 Print Assumptions C14_skip_safe_pull.
+
+Theorem C14_take_safe_pull p :
+  nsinks p = 1 -> resub p = false -> no_nest p = false ->
+  c14 p = true -> pullable p = true -> one_pull p = true ->
+  forall max, 1 <= max ->
+  forall c : cfg (take_op max), reach p g_std c -> viols (ms c) = [] /\ dead c = false.
+Proof. exact (@take_safe_pull p). Qed.
+Print Assumptions C14_take_safe_pull.
+
+Theorem C14_take_counts_pull p :
+  nsinks p = 1 -> resub p = false -> no_nest p = false ->
+  c14 p = true -> pullable p = true -> one_pull p = true ->
+  forall max, 1 <= max ->
+  forall c : cfg (take_op max), reach p g_std c ->
+  sk (ms c) 0 = SLive -> us (ms c) 0 = ULive -> ndata (ms c) 0 < max ->
+  owed (ms c) 0 + ndata (ms c) 0 = npull (ms c) 0 /\ credit (ms c) 0 + owed (ms c) 0 = 1.
+Proof. exact (@take_counts_pull p). Qed.
+Print Assumptions C14_take_counts_pull.
+
+Theorem C14_from_iter_safe_pull (it : nat -> option val) p :
+  nsinks p = 1 -> resub p = false -> no_nest p = false ->
+  c14 p = true -> pullable p = true -> one_pull p = true ->
+  forall c : cfg (from_iter_op it), reach p g_std c -> viols (ms c) = [] /\ dead c = false.
+Proof. exact (@from_iter_safe_pull it p). Qed.
+Print Assumptions C14_from_iter_safe_pull.
+
+Theorem C14_from_iter_counts_pull (it : nat -> option val) p :
+  nsinks p = 1 -> resub p = false ->
+  c14 p = true -> pullable p = true -> one_pull p = true ->
+  forall c : cfg (from_iter_op it), reach p g_std c -> sk (ms c) 0 = SLive ->
+    ndata (ms c) 0 + (if fi_got_pull (cst c) then 1 else 0) = npull (ms c) 0 /\
+    credit (ms c) 0 + (if fi_got_pull (cst c) then 1 else 0) = 1 /\
+    (stack c = [] -> fi_got_pull (cst c) = false /\ npull (ms c) 0 = ndata (ms c) 0).
+Proof. exact (@from_iter_counts_pull it p). Qed.
+Print Assumptions C14_from_iter_counts_pull.
+
+Theorem C14_from_iter_no_coalescing (it : nat -> option val) p :
+  nsinks p = 1 -> resub p = false ->
+  c14 p = true -> pullable p = true -> one_pull p = true ->
+  forall c : cfg (from_iter_op it), reach p g_std c ->
+    fi_got_pull (cst c) = true -> enabled p g_std c (MIn (IUp 0 UP)) = false.
+Proof. exact (@from_iter_no_coalescing it p). Qed.
+Print Assumptions C14_from_iter_no_coalescing.
+
+Theorem C14_concat_safe_pull n p :
+  nsinks p = 1 -> resub p = false -> no_nest p = false ->
+  c14 p = true -> pullable p = true -> one_pull p = true -> late_ok p = false ->
+  forall c : cfg (concat_op n), reach p g_std c -> viols (ms c) = [] /\ dead c = false.
+Proof. exact (@concat_safe_pull n p). Qed.
+Print Assumptions C14_concat_safe_pull.
+
+Theorem C14_concat_pull_counts n p :
+  nsinks p = 1 -> resub p = false -> no_nest p = false ->
+  c14 p = true -> pullable p = true -> one_pull p = true -> late_ok p = false ->
+  forall c : cfg (concat_op n), reach p g_std c ->
+    (forall j, us (ms c) j = ULive ->
+       j = cc_i (cst c) /\ sk (ms c) 0 = SLive /\
+       owed (ms c) j + ndata (ms c) 0 = npull (ms c) 0 /\
+       credit (ms c) 0 + owed (ms c) j = 1 /\ In j (ports (ms c))) /\
+    (forall j, us (ms c) j = USubd ->
+       j = cc_i (cst c) /\ credit (ms c) 0 = 0 /\ owed (ms c) j = 0 /\
+       npull (ms c) 0 = match j with 0 => 0 | S _ => 1 end + ndata (ms c) 0) /\
+    (forall j, cc_i (cst c) < j -> owed (ms c) j = 0).
+Proof. exact (@concat_pull_counts n p). Qed.
+Print Assumptions C14_concat_pull_counts.
